@@ -266,6 +266,11 @@ func UnmarshalBytes(buf []byte, newBuf bool) (int, []byte, error) {
 		return 0, nil, err
 	}
 
+	if uln > uint(len(buf)) {
+		// also keeps int(uln) and ln+idx below from overflowing for huge length prefixes
+		return 0, nil, fmt.Errorf("not enough data in the buf: UnmarshalBytes-size-body requres %d bytes, but actual buf size is %d", uln, len(buf)-idx)
+	}
+
 	ln := int(uln)
 	if len(buf) < ln+idx {
 		return 0, nil, noBufErr("UnmarshalBytes-size-body", len(buf)-idx, ln)
